@@ -211,6 +211,8 @@ def cookieClause (cfg : SpecCfg) (s : SpecSt) (q : Req) (o : Obs) (live : List (
   | some t =>
     if t = [] then noValid
     else if !(s.issued.contains t) then .error "cookie-token-was-not-issued"
+    else if cfg.single && !isSafe q.method && t = q.ck && !o.gens.contains t then
+      .error "single-use-token-handed-out-again"
     else if !((t = q.ck && s.liveAt t) || o.gens.contains t) then .error "cookie-token-neither-presented-live-nor-fresh"
     else if isSafe q.method && !o.fired && !probeHas o t (s.now + cfg.idle) then .error "safe-leaves-valid-token-cookie"
     else .ok (put live t { deadline := s.now + cfg.idle, holder := o.sc })
